@@ -7,6 +7,9 @@ EXPRS = ["a", "a.b", "to_string(a)", "ceil(v) == `1`", "to_string(@)", "'42'", "
          "type('[1, 2, 3]')", "a[*].b", "sort_by(a, &b)", "abs(a)", "nope(a)", "a[::0]", "length(a)", "a || b", "[a, b]", "{x: a, y: b}", "a[?b > `1`]",
          "max_by(a, &b)", "map(&b, a)", "join(',', a)", "a ==", "a[", "sum(a)", "avg(a)", "keys(@)", "@", "a | [0]", "floor(v)", "to_number('1.0')",
          "`1.0`", "`1`", "a == `1`", "[`1`, `1.0`]", "contains(a, `1.0`)",
+         # calls that a given document may or may not reach (an unknown or ill-typed call behind a short-circuit, an empty projection, a filter)
+         "a || nope(@)", "b && nope(@)", "a[?b > `5`].nope(@)", "a[*].nope(@)", "[].nope(@)", "nope(@) || a", "a[?b > `1`].abs(b)", "a.b || abs('x')",
+         "map(&nope(@), a)", "sort_by(a, &nope(b))", "not_null(a, nope(@))", "a[?nope(@)]", "[a, b || nope(@)]", "{x: a || abs(@)}",
          # the same expression spelled with different leading / surrounding whitespace (offsets differ, meaning does not)
          "  a.b", "\n a.b", "\ta.b ", " abs(a)", "\n  abs(a)", "abs(a) ", "  nope(a)", "\n\n a[::0]", " a ==", "\u00a0a"]
 # families that differ only in the field an expression reference names: a stale reference shows in the result
@@ -57,6 +60,15 @@ class P(framework.Prop):
                     h = rng.choice(list(live))
                     ops.append("search %d %s" % (h, wire.val(rng.choice(docs))))
             out.append("hist " + " ; ".join(ops))
+        # an outcome must not depend on what else was compiled or searched in between: failing searches of every error kind (also the ones
+        # built without a position: a non-finite sum), repeated on the same handle, on a clone and on a fresh compile, with other work in between
+        big = wire.val({"a": [1e308, 1e308], "b": None})
+        for e in ["sum(a)", "avg(a)", "sum(a) || b", "[sum(a)]", "a | sum(@)", "abs(b)", "nope(a)", "a[::0]", "sort_by(a, &b)", "b || nope(@)", "a[?nope(@)]"]:
+            for other in ["foo.bar", "a", "sum(a)", "  " + e, "length(@)"]:
+                ops = ["compile 1 0 %s" % wire.s(e), "search 1 %s" % big, "compile 2 0 %s" % wire.s(other), "search 1 %s" % big, "search 2 %s" % big,
+                       "clone 3 1", "search 3 %s" % big, "drop 2", "compile 4 0 %s" % wire.s(e), "search 4 %s" % big, "search 1 %s" % big,
+                       "compile 5 0 %s" % wire.s("a ||"), "search 3 %s" % big, "search 1 %s" % wire.val({"a": [1, 2]}), "search 1 %s" % big]
+                out.append("hist " + " ; ".join(ops))
         # churn: compile / search / drop in quick succession, so that freed trees are recycled (a memo keyed by address or by
         # normalised text would return a stale tree)
         M = 60 if tier == "quick" else 3000
